@@ -2,8 +2,9 @@
   C12 — Calls leave inputs and tokenizer untouched; no call affects a later one.
 
   STATEMENT.  No join, filter, matcher, profiler or non-inplace converter call modifies the tables or candidate set
-  passed to it (values, dtypes, columns, index), and every call that returns normally leaves the tokenizer
-  configured exactly as it received it, although joins temporarily switch it between set and bag mode.
+  passed to it (values, dtypes, columns, index), and EVERY call — whether it returns normally or raises, at
+  validation or inside its body — leaves the tokenizer configured exactly as it received it, although joins
+  temporarily switch it between set and bag mode.
   Consequently the result of a call is the same whatever calls were made before it with the same tokenizer and
   table objects, including the default q-gram tokenizer shared by all edit_distance_join calls.
 
@@ -13,21 +14,23 @@
   overlap_coefficient, overlap, edit_distance) with its tokenizer's flag being `flag` and yields an `Outcome` =
   (result: DataFrame or exception, `flagAfter`); `Session.run cpu flags calls` threads the flags through a history.
   The joins are `setSimJoinPy`, `overlapCoefficientJoinPy`, `overlapJoinPy`, `editDistanceJoinPy`
-  (`SSJ/Model/Frame.lean`); `withFlag` is `tokenizer.set_return_set(want) … set_return_set(original)`.
+  (`SSJ/Model/Frame.lean`); `withFlag` is
+  `tokenizer.set_return_set(want); try: … finally: tokenizer.set_return_set(original)` of every `*_join_py`.
   A tokenizer object shared by several calls (e.g. the module-level default q-gram tokenizer of
   `edit_distance_join`) is simply several calls with the same `tokId`.
 
   WHAT IS PROVED.
-  * `flag_restored_*`: each of the four kinds of join, when it returns normally, leaves the flag as it found it
-    (`overlap_join`, with its `try … finally`, on every path);
+  * `flag_restored_*`, `flag_restored`: each of the six joins leaves the flag as it found it on EVERY path — normal
+    return, rejection by the validation block, or an exception raised inside the body (e.g. the tokenizer itself
+    raises on a non-string value, or the final `_id` insertion fails: `C15_body`).  No hypothesis.
   * `join_result_ignores_incoming_mode`: the temporary switch is real — a join forces the mode it needs, so its
     result does not depend on the mode the tokenizer happens to be in;
-  * `history_independent(_or_rejected)`, `mixed_history_independent`: in any history every call's outcome equals its
-    outcome in isolation and the flags end as they began — provided each join returns normally, is an overlap join,
-    or is rejected by its validation block (C15: then it has not touched the flag either).
-    The ONE excluded case is real: a jaccard/cosine/dice/overlap-coefficient/edit-distance join that raises AFTER
-    validation (e.g. the tokenizer itself raises) propagates the exception with the flag still switched
-    (`withFlag`, as in the Python code, has no `finally`).
+  * `history_independent`, `mixed_history_independent`: in ANY history — no condition on how the calls end — every
+    call's outcome equals its outcome in isolation and the flags end as they began;
+    `results_independent_of_history_and_modes`, `shared_default_tokenizer` are consequences.
+    (Before the repair of the five joins — `try … finally` around the body, as `overlap_join_py` already had — a
+    join raising after validation left the flag switched and these statements needed the hypothesis "every call
+    returns normally, is an overlap join, or is rejected up front"; that excluded case no longer exists.)
   * `inputs_immutable`: see below.
 
   INPUT TABLES.  In the model a DataFrame is a VALUE (`Frame`); an entry point is a function from its arguments to
@@ -42,9 +45,10 @@
   (`filters_and_matcher_only_read_the_tokenizer`).
 
   NOT COVERED.  Mutation of DataFrame objects (harness); tokenizer attributes other than `return_set` (the package
-  never writes them); exceptions raised inside the body of a join (excluded case above).
+  never writes them).
 -/
 import SSJ.Proofs.SessionMixed
+import SSJ.Proofs.EntryBody
 import SSJ.Proofs.EntryMatcher
 
 namespace SSJ.Props.C12
@@ -52,35 +56,37 @@ open SSJ
 
 /-! ## A. The tokenizer is handed back as it was received -/
 
-/-- jaccard / cosine / dice join: a call that returns normally leaves the tokenizer's flag as it found it. -/
-theorem flag_restored_set_sim (m : Measure) (a : JoinArgs) (t : TokObj) (toks : TokFn) (cpu : Int) (fr : Frame)
-    (h : (setSimJoinPy m a t toks cpu).result = .ok fr) :
+/-- jaccard / cosine / dice join: EVERY call — returning a DataFrame, rejected, or raising inside its body — leaves
+    the tokenizer's flag as it found it. -/
+theorem flag_restored_set_sim (m : Measure) (a : JoinArgs) (t : TokObj) (toks : TokFn) (cpu : Int) :
     (setSimJoinPy m a t toks cpu).flagAfter = t.returnSet :=
-  setSimJoinPy_flag m a t toks cpu fr h
+  setSimJoinPy_flag m a t toks cpu
 
-/-- overlap coefficient join: likewise. -/
-theorem flag_restored_overlap_coefficient (a : JoinArgs) (t : TokObj) (toks : TokFn) (cpu : Int) (fr : Frame)
-    (h : (overlapCoefficientJoinPy a t toks cpu).result = .ok fr) :
+/-- overlap coefficient join: likewise, on every path. -/
+theorem flag_restored_overlap_coefficient (a : JoinArgs) (t : TokObj) (toks : TokFn) (cpu : Int) :
     (overlapCoefficientJoinPy a t toks cpu).flagAfter = t.returnSet :=
-  overlapCoefficientJoinPy_flag a t toks cpu fr h
+  overlapCoefficientJoinPy_flag a t toks cpu
 
-/-- edit distance join (which switches the shared q-gram tokenizer to bag mode): likewise. -/
-theorem flag_restored_edit_distance (a : JoinArgs) (t : TokObj) (toks : TokFn) (cpu : Int) (fr : Frame)
-    (h : (editDistanceJoinPy a t toks cpu).result = .ok fr) :
+/-- edit distance join (which switches the shared q-gram tokenizer to bag mode): likewise, on every path. -/
+theorem flag_restored_edit_distance (a : JoinArgs) (t : TokObj) (toks : TokFn) (cpu : Int) :
     (editDistanceJoinPy a t toks cpu).flagAfter = t.returnSet :=
-  editDistanceJoinPy_flag a t toks cpu fr h
+  editDistanceJoinPy_flag a t toks cpu
 
-/-- overlap join: the flag is restored on EVERY path (normal return or exception). -/
+/-- overlap join: likewise, on every path. -/
 theorem flag_restored_overlap (a : JoinArgs) (t : TokObj) (toks : TokFn) (cpu : Int) :
     (overlapJoinPy a t toks cpu).flagAfter = t.returnSet :=
   overlapJoinPy_flag a t toks cpu
 
-/-- any join call of a session: normal return ⇒ flag unchanged. -/
-theorem flag_restored (cpu : Int) (c : Session.Call) (flag : Bool) (fr : Frame)
-    (h : (Session.runCall cpu c flag).result = .ok fr) : (Session.runCall cpu c flag).flagAfter = flag :=
-  Session.runCall_flag_of_ok cpu c flag fr h
+/-- any join call of a session, whatever its result (DataFrame or exception): flag unchanged. -/
+theorem flag_restored (cpu : Int) (c : Session.Call) (flag : Bool) : (Session.runCall cpu c flag).flagAfter = flag :=
+  Session.runCall_flag cpu c flag
 
-/-- a join rejected by its validation block has not touched the flag either (C15). -/
+/-- in particular a call that RAISES — for whatever reason, at validation or in the body — leaves the flag unchanged. -/
+theorem flag_restored_when_raising (cpu : Int) (c : Session.Call) (flag : Bool) (e : PyErr)
+    (_h : (Session.runCall cpu c flag).result = .error e) : (Session.runCall cpu c flag).flagAfter = flag :=
+  Session.runCall_flag cpu c flag
+
+/-- a join rejected by its validation block raises that exception and has not touched the flag (C15). -/
 theorem flag_untouched_when_rejected (cpu : Int) (c : Session.Call) (flag : Bool) (e : PyErr)
     (h : Session.Rejected c flag e) :
     (Session.runCall cpu c flag).result = .error e ∧ (Session.runCall cpu c flag).flagAfter = flag :=
@@ -94,52 +100,33 @@ theorem join_result_ignores_incoming_mode (cpu : Int) (c : Session.Call) (flag f
 
 /-! ## B. No call affects a later one -/
 
-/-- HISTORY INDEPENDENCE.  If every call of a history returns normally, then each call's outcome equals its outcome
-    in isolation (run alone from the initial flags), and the flags end as they began.  Calls may share tokenizer
-    objects (same `tokId`) and table values freely. -/
-theorem history_independent (cpu : Int) (flags : List Bool) (calls : List Session.Call)
-    (hid : ∀ c ∈ calls, c.tokId < flags.length)
-    (hok : ∀ c ∈ calls, ∃ fr, (Session.runCall cpu c (flags.getD c.tokId false)).result = .ok fr) :
+/-- HISTORY INDEPENDENCE, unconditionally.  In ANY history of join calls — each may return a DataFrame, be rejected,
+    or raise inside its body; calls may share tokenizer objects (same `tokId`) and table values freely; tokenizer ids
+    need not even be known to the state — each call's outcome equals its outcome in isolation (run alone from the
+    initial flags), and the flags end as they began. -/
+theorem history_independent (cpu : Int) (flags : List Bool) (calls : List Session.Call) :
     Session.run cpu flags calls =
       (flags, calls.map (fun c => Session.runCall cpu c (flags.getD c.tokId false))) :=
-  Session.run_independent cpu flags calls hid hok
+  Session.run_independent cpu flags calls
 
-/-- … more generally each call may return normally, OR be an overlap join (restores on every path), OR be rejected
-    by its validation block: in none of these cases can it influence a later call. -/
-theorem history_independent_or_rejected (cpu : Int) (flags : List Bool) (calls : List Session.Call)
-    (hok : ∀ c ∈ calls,
-      (∃ fr, (Session.runCall cpu c (flags.getD c.tokId false)).result = .ok fr) ∨
-      c.which = "overlap" ∨
-      (∃ e, Session.Rejected c (flags.getD c.tokId false) e)) :
-    Session.run cpu flags calls =
-      (flags, calls.map (fun c => Session.runCall cpu c (flags.getD c.tokId false))) :=
-  Session.run_independent_or_rejected cpu flags calls hok
-
-/-- Consequently the RESULT of each call does not even depend on the initial modes of the tokenizers: under the
-    same hypothesis the list of results of a history is the list of results of the calls run alone with every
-    tokenizer in bag mode (or any other mode). -/
+/-- Consequently the RESULT of each call does not even depend on the initial modes of the tokenizers: the list of
+    results of a history is the list of results of the calls run alone with every tokenizer in bag mode (or any
+    other mode `b`). -/
 theorem results_independent_of_history_and_modes (cpu : Int) (flags : List Bool) (calls : List Session.Call)
-    (hok : ∀ c ∈ calls,
-      (∃ fr, (Session.runCall cpu c (flags.getD c.tokId false)).result = .ok fr) ∨
-      c.which = "overlap" ∨
-      (∃ e, Session.Rejected c (flags.getD c.tokId false) e)) (b : Bool) :
+    (b : Bool) :
     (Session.run cpu flags calls).2.map (·.result) = calls.map (fun c => (Session.runCall cpu c b).result) := by
-  rw [Session.run_independent_or_rejected cpu flags calls hok, List.map_map]
+  rw [Session.run_independent cpu flags calls, List.map_map]
   apply List.map_congr_left
   intro c _
   exact Session.runCall_result_flag_irrel cpu c _ b
 
-/-- The default q-gram tokenizer shared by all `edit_distance_join` calls: a history of edit distance joins on ONE
-    tokenizer object (all calls have `tokId = 0`), each returning normally, yields for each call the outcome it
-    would have had as the first call, and the shared tokenizer ends in the mode it started in. -/
+/-- The default q-gram tokenizer shared by all `edit_distance_join` calls: a history of joins on ONE tokenizer
+    object (all calls have `tokId = 0`) — whether they return or raise — yields for each call the outcome it would
+    have had as the first call, and the shared tokenizer ends in the mode it started in. -/
 theorem shared_default_tokenizer (cpu : Int) (flag : Bool) (calls : List Session.Call)
-    (hshared : ∀ c ∈ calls, c.tokId = 0)
-    (hok : ∀ c ∈ calls, ∃ fr, (Session.runCall cpu c flag).result = .ok fr) :
+    (hshared : ∀ c ∈ calls, c.tokId = 0) :
     Session.run cpu [flag] calls = ([flag], calls.map (fun c => Session.runCall cpu c flag)) := by
-  have h := Session.run_independent cpu [flag] calls
-    (fun c hc => by rw [hshared c hc]; exact Nat.zero_lt_one)
-    (fun c hc => by rw [hshared c hc]; exact hok c hc)
-  rw [h]
+  rw [Session.run_independent cpu [flag] calls]
   congr 1
   apply List.map_congr_left
   intro c hc
@@ -147,26 +134,22 @@ theorem shared_default_tokenizer (cpu : Int) (flag : Bool) (calls : List Session
   rfl
 
 /-- Histories MIXING joins with read-only calls (`filter_tables`, `filter_candset`, `apply_matcher`, profiler, … —
-    `Session.MCall.readOnly tokId f`: any call `f` that may read the current flag of tokenizer `tokId`): if every
-    join behaves (normal return / overlap join / rejected up front; nothing is required of the read-only calls),
-    every call's outcome equals its outcome in isolation and the flags end as they began. -/
-theorem mixed_history_independent (cpu : Int) (flags : List Bool) (calls : List Session.MCall)
-    (hok : ∀ c ∈ calls, c.Behaves cpu flags) :
+    `Session.MCall.readOnly tokId f`: any call `f` that may read the current flag of tokenizer `tokId`): without any
+    condition on the calls, every call's outcome equals its outcome in isolation and the flags end as they began. -/
+theorem mixed_history_independent (cpu : Int) (flags : List Bool) (calls : List Session.MCall) :
     Session.runM cpu flags calls =
       (flags, calls.map (fun c => Session.runMCall cpu c (flags.getD c.tokId false))) :=
-  Session.runM_independent cpu flags calls hok
+  Session.runM_independent cpu flags calls
 
 /-! ## C. Inputs -/
 
 /-- INPUTS.  (DataFrame mutation itself is outside the model — see the header.)  The model-level content:
-    (1) within any well-behaved history the outcome of a call is `Session.runCall cpu c flag` — a function of the
+    (1) within ANY history the outcome of a call is `Session.runCall cpu c flag` — a function of the
         call's own arguments and its tokenizer's flag, with no access to what earlier calls did or returned;
     (2) the tables a validated join works on are the very values it was given (`validateJoin` returns its two
         table arguments unchanged), and likewise for `filter_tables`, `apply_matcher`, `filter_candset`. -/
 theorem inputs_immutable :
     (∀ (cpu : Int) (flags : List Bool) (calls : List Session.Call),
-      (∀ c ∈ calls, (∃ fr, (Session.runCall cpu c (flags.getD c.tokId false)).result = .ok fr) ∨
-          c.which = "overlap" ∨ (∃ e, Session.Rejected c (flags.getD c.tokId false) e)) →
       (Session.run cpu flags calls).2 = calls.map (fun c => Session.runCall cpu c (flags.getD c.tokId false))) ∧
     (∀ (mname : String) (a : JoinArgs) (t : TokObj) (l r : Frame),
       validateJoin mname a t = .ok (l, r) → a.ltable = some l ∧ a.rtable = some r) ∧
@@ -177,8 +160,8 @@ theorem inputs_immutable :
     (∀ (a : CandsetArgs) (c l r : Frame),
       validateCandset a = .ok (c, l, r) → a.candset = some c ∧ a.ltable = some l ∧ a.rtable = some r) := by
   refine ⟨?_, ?_, ?_, ?_, ?_⟩
-  · intro cpu flags calls hok
-    rw [Session.run_independent_or_rejected cpu flags calls hok]
+  · intro cpu flags calls
+    rw [Session.run_independent cpu flags calls]
   · intro mname a t l r h
     have hv := ((validateJoin_ok_iff mname a t l r).1 h).1
     exact ⟨hv.ltable, hv.rtable⟩
@@ -223,22 +206,44 @@ def exCalls (toks : TokFn) : List Session.Call :=
     { which := "edit_distance", args := exArgs (.int 2) "<=", tok := exTok, tokId := 0, toks := toks },
     { which := "overlap", args := exArgs (.int 1) ">=", tok := exTok, tokId := 0, toks := toks } ]
 
-/-- the hypothesis of `history_independent_or_rejected` is satisfiable for every tokenization table (each of the
-    three calls returns normally — by the acceptance theorems of C15 — or is the overlap join) -/
-example (toks : TokFn) (cpu : Int) : ∀ c ∈ exCalls toks,
-    (∃ fr, (Session.runCall cpu c (([false] : List Bool).getD c.tokId false)).result = .ok fr) ∨
-    c.which = "overlap" ∨ (∃ e, Session.Rejected c (([false] : List Bool).getD c.tokId false) e) := by
-  intro c hc
+/-- the history is not trivial: its first two calls return DataFrames for every tokenization table (by the
+    acceptance theorems of C15) … -/
+example (toks : TokFn) (cpu : Int) : ∀ c ∈ exCalls toks, c.which ≠ "overlap" →
+    ∃ fr, (Session.runCall cpu c false).result = .ok fr := by
+  intro c hc hne
   simp only [exCalls, List.mem_cons, List.not_mem_nil, or_false] at hc
   rcases hc with rfl | rfl | rfl
-  · left
-    show ∃ fr, (setSimJoinPy .jaccard (exArgs (.float (mkRat 1 2)) ">=") { exTok with returnSet := false } toks cpu).result
+  · show ∃ fr, (setSimJoinPy .jaccard (exArgs (.float (mkRat 1 2)) ">=") { exTok with returnSet := false } toks cpu).result
       = .ok fr
-    exact setSimJoinPy_total .jaccard _ _ toks cpu exL exR (by decide)
-  · left
-    show ∃ fr, (editDistanceJoinPy (exArgs (.int 2) "<=") { exTok with returnSet := false } toks cpu).result = .ok fr
-    exact editDistanceJoinPy_total _ _ toks cpu exL exR 2 (by decide) rfl
-  · right; left; rfl
+    exact setSimJoinPy_total .jaccard _ _ toks cpu exL exR (by decide) (by decide +kernel)
+  · show ∃ fr, (editDistanceJoinPy (exArgs (.int 2) "<=") { exTok with returnSet := false } toks cpu).result = .ok fr
+    exact editDistanceJoinPy_total _ _ toks cpu exL exR 2 (by decide) rfl (by decide +kernel)
+  · exact absurd rfl hne
+
+/-- … and the shared tokenizer, which started in bag mode, is in bag mode afterwards -/
+example (toks : TokFn) (cpu : Int) : (Session.run cpu [false] (exCalls toks)).1 = [false] := by
+  rw [history_independent]
+
+/-- a table whose join column holds the int 5: the jaccard join on it RAISES inside its body (TypeError from the
+    tokenizer, after validation has passed) … -/
+def exBad : Frame := { columns := ["id", "name"], dtypes := ["int64", "object"], rows := [[.int 1, .int 5]] }
+def exBadArgs : JoinArgs := { exArgs (.float (mkRat 1 2)) ">=" with ltable := some exBad }
+def exBadCall (toks : TokFn) : Session.Call :=
+  { which := "jaccard", args := exBadArgs, tok := exTok, tokId := 0, toks := toks }
+
+example (toks : TokFn) (cpu : Int) : (Session.runCall cpu (exBadCall toks) false).result = .error .typeErr := by
+  show (setSimJoinPy .jaccard exBadArgs { exTok with returnSet := false } toks cpu).result = .error .typeErr
+  exact (TableCall.setSim .jaccard exBadArgs { exTok with returnSet := false } toks exBad exR (by decide)).typeErr
+    (by decide) _ _ cpu
+
+/-- … and nevertheless the tokenizer comes back in bag mode and the later calls are unaffected -/
+example (toks : TokFn) (cpu : Int) :
+    Session.run cpu [false] (exBadCall toks :: exCalls toks) =
+      ([false], (exBadCall toks :: exCalls toks).map (fun c => Session.runCall cpu c false)) :=
+  shared_default_tokenizer cpu false _ (by
+    intro c hc
+    simp only [exCalls, List.mem_cons, List.not_mem_nil, or_false] at hc
+    rcases hc with rfl | rfl | rfl | rfl <;> rfl)
 
 end Examples
 
